@@ -188,6 +188,19 @@ where
 }
 
 #[async_trait]
+impl<Effect, Event> EffectSender for crux_core::command::CommandContext<Effect, Event>
+where
+    Effect: From<crux_core::Request<HttpRequest>> + Send + 'static,
+    Event: Send + 'static,
+{
+    async fn send(&self, effect: HttpRequest) -> HttpResult {
+        crux_core::Command::request_from_shell(effect)
+            .into_future(self.clone())
+            .await
+    }
+}
+
+#[async_trait]
 pub(crate) trait ProtocolRequestBuilder {
     async fn into_protocol_request(mut self) -> crate::Result<HttpRequest>;
 }
